@@ -69,23 +69,43 @@ def sincosdWrap (x : F64) (s c : F64) : F64 × F64 :=
   let sinx := if F64.eq sinx 0 then copysign sinx x else sinx
   (sinx, cosx)
 
+/-- the operations the octant logic of `atan2d` uses, so that the same definition can be read over binary64
+    (executed against the implementation) and over ℝ (where `Props/C16.lean` proves it correct) -/
+structure AngOps (α : Type) where
+  abs : α → α
+  gt : α → α → Bool
+  signbit : α → Bool
+  neg : α → α
+  add : α → α → α
+  sub : α → α → α
+  copysign : α → α → α
+  hd : α
+  qd : α
+
 /--
 The octant logic of `Math::atan2d`: returns the canonical arguments
 `(y', x', q)` with `x' ≥ |y'|`, `x' ≥ 0`, on which `atan2d` is the plain
 kernel `atan2(y', x')/degree`.
 -/
-def atan2dCanon (y x : F64) : F64 × F64 × Nat :=
-  let (x, y, q) := if F64.gt (abs y) (abs x) then (y, x, 2) else (x, y, 0)
-  let (x, q) := if x.signbit then (neg x, q + 1) else (x, q)
+def atan2dCanonG {α : Type} (o : AngOps α) (y x : α) : α × α × Nat :=
+  let (x, y, q) := if o.gt (o.abs y) (o.abs x) then (y, x, 2) else (x, y, 0)
+  let (x, q) := if o.signbit x then (o.neg x, q + 1) else (x, q)
   (y, x, q)
 
 /-- final step of `atan2d` given the kernel angle `ang` of the canonical problem -/
-def atan2dWrap (y x : F64) (ang : F64) : F64 :=
-  let (y', _, q) := atan2dCanon y x
+def atan2dWrapG {α : Type} (o : AngOps α) (y x : α) (ang : α) : α :=
+  let (y', _, q) := atan2dCanonG o y x
   match q with
-  | 1 => copysign hd y' - ang
-  | 2 => qd - ang
-  | 3 => neg qd + ang
+  | 1 => o.sub (o.copysign o.hd y') ang
+  | 2 => o.sub o.qd ang
+  | 3 => o.add (o.neg o.qd) ang
   | _ => ang
+
+def f64Ops : AngOps F64 :=
+  { abs := F64.abs, gt := F64.gt, signbit := F64.signbit, neg := F64.neg, add := F64.add, sub := F64.sub,
+    copysign := F64.copysign, hd := hd, qd := qd }
+
+def atan2dCanon (y x : F64) : F64 × F64 × Nat := atan2dCanonG f64Ops y x
+def atan2dWrap (y x : F64) (ang : F64) : F64 := atan2dWrapG f64Ops y x ang
 
 end GeoVerif.MathF
